@@ -181,7 +181,7 @@ var props = []*prop{
 		Assumptions: trusted,
 		Builds:      plain,
 		Quick:       budget{Shards: 14, Checks: 30, TimeoutS: 600, ShrinkS: 30},
-		Thorough:    budget{Shards: 14, Checks: 1500, TimeoutS: 5000, ShrinkS: 60},
+		Thorough:    budget{Shards: 14, Checks: 600, TimeoutS: 5000, ShrinkS: 60},
 		Fuzz:        &fuzzCfg{Target: "FuzzC07", Seconds: 300},
 	},
 	{
